@@ -39,6 +39,16 @@ def load_known(path=KNOWN_FILE):
     return known, fixed
 
 
+def _key_op(cls, shape):
+    """operation and failing side of a table key's shape part (see rules/panic_common._op_of)"""
+    import re
+    if cls == "S5":
+        return shape
+    m = re.match(r"^([A-Za-z_][\w:]*)", shape)
+    part = re.search(r" (#[a-z+0-9!<>= ()&*._-]+)$", shape)
+    return (m.group(1) if m else shape.split("(")[0]) + ((" " + part.group(1)) if part else "")
+
+
 def load_table(name):
     p = os.path.join(VERIF, "tables", name)
     with open(p, encoding="utf-8") as f:
@@ -112,6 +122,51 @@ class Check:
             if n > allow:
                 for det in dets[allow:] if allow else dets:
                     violations.append((key, det, n, allow))
+        # moved sites: a finding that no entry covers, in a function h, against an entry of a function f that has allowance left
+        # (its site is gone), of the same class and operation, where f calls h -- the site was extracted into a helper
+        calls_into = getattr(self, "calls_into", None)
+        moved_notes = []
+        if violations and calls_into is not None:
+            left = OrderedDict()
+            for k in list(reviewed) + [k_ for k_ in known if k_ not in reviewed]:
+                have = len(bykey.get(k, ()))
+                r_ = reviewed[k][0] if k in reviewed else 0
+                k_ = known[k][0] if k in known else 0
+                r_used = min(have, r_)
+                k_used = min(have - r_used, k_)
+                if r_ - r_used > 0:
+                    left[("reviewed", k)] = r_ - r_used
+                if k_ - k_used > 0:
+                    left[("known", k)] = k_ - k_used
+            still = []
+            for (key, det, n, allow) in violations:
+                mv = det.get("moved")
+                hit = None
+                if mv is not None:
+                    origin_id, cls, op = mv
+                    for (which, k), spare in left.items():
+                        if spare <= 0:
+                            continue
+                        parts = k.split("|")
+                        if len(parts) < 3 or parts[1] != cls or parts[0] == key.split("|")[0]:
+                            continue
+                        kop = _key_op(cls, parts[2])
+                        if kop == op and calls_into(parts[0], origin_id):
+                            hit = (which, k)
+                            break
+                if hit is None:
+                    still.append((key, det, n, allow))
+                    continue
+                left[hit] -= 1
+                if hit[0] == "reviewed":
+                    n_reviewed += 1
+                else:
+                    n_known += 1
+                    known_lines.append("KNOWN-FINDING: property=%s %s — %s (the site now stands in %s)" % (self.prop, hit[1], known[hit[1]][1], key.split("|")[0]))
+                moved_notes.append({"finding": key, "covered_by": hit[1], "table": hit[0]})
+            violations = still
+        if moved_notes:
+            self.cov["moved_sites"] = moved_notes
         known_sites = []
         for key, (cnt, what) in known.items():
             if key in bykey:
